@@ -276,6 +276,14 @@ func judge(sc *scen.Scenario, res *scen.Result, runErr error) (string, error) {
 	// every message is serialised and written under one lock), so that acknowledgement and everything the server receives
 	// after it on the connection carries the announced salt or a newer one
 	saltOrder := map[int64]int{}
+	haveInitial := false
+	// older(y, x): y is known to have been retired before x was announced - the salt the session started with, or one the
+	// script introduced earlier. A salt the log does not know (the intermediate ones of a burst of notifications) is never
+	// called older: it may as well be newer
+	older := func(y, x int64) bool {
+		oy, known := saltOrder[y]
+		return known && oy < saltOrder[x]
+	}
 	announcedBy := map[int64]int64{} // msg_id of a new_session_created -> salt it announces
 	var pendingAnnounce []int64
 	mustCarry := map[int]int64{} // connection -> salt announced by an acknowledged notification
@@ -283,6 +291,9 @@ func judge(sc *scen.Scenario, res *scen.Result, runErr error) (string, error) {
 	for _, ev := range res.Events {
 		switch ev.Kind {
 		case "rotate", "new-session", "bad-salt":
+			// the server moves on to another salt (possibly one it has used before): what an earlier notification demanded
+			// holds until here only
+			mustCarry = map[int]int64{}
 			var x int64
 			if n, _ := fmt.Sscanf(ev.Note, "salt=%d", &x); n == 1 {
 				if _, ok := saltOrder[x]; !ok {
@@ -299,11 +310,17 @@ func judge(sc *scen.Scenario, res *scen.Result, runErr error) (string, error) {
 			}
 		case "enc":
 			encSalt[ev.MsgID] = ev.Salt
+			if !haveInitial {
+				haveInitial = true
+				if _, ok := saltOrder[ev.Salt]; !ok {
+					saltOrder[ev.Salt] = 0 // the salt the session starts with precedes every announced one
+				}
+			}
 			if b, err := hex.DecodeString(ev.Body); err == nil && ev.Ctor == "62d6b459" && len(b) >= 12 {
 				// an acknowledgement (the server reads it whether or not it then rejects the message for its salt)
 				for k := 12; k+8 <= len(b); k += 8 {
 					if x, ok := announcedBy[int64(binary.LittleEndian.Uint64(b[k:]))]; ok {
-						if saltOrder[ev.Salt] < saltOrder[x] {
+						if older(ev.Salt, x) {
 							return "violation", fmt.Errorf("the acknowledgement of the new_session_created that announced salt %d was itself sent under the older salt %d: the announced salt was not taken over", x, ev.Salt)
 						}
 						if saltOrder[mustCarry[ev.Conn]] < saltOrder[x] {
@@ -312,13 +329,13 @@ func judge(sc *scen.Scenario, res *scen.Result, runErr error) (string, error) {
 					}
 				}
 			}
-			if x, ok := mustCarry[ev.Conn]; ok && saltOrder[ev.Salt] < saltOrder[x] {
+			if x, ok := mustCarry[ev.Conn]; ok && older(ev.Salt, x) {
 				return "violation", fmt.Errorf("the client had acknowledged the new_session_created that announced salt %d, yet its next message %d went out under the older salt %d: the announced salt was not taken over", x, ev.MsgID, ev.Salt)
 			}
 		case "ack":
 			for _, id := range ev.IDs {
 				if x, ok := announcedBy[id]; ok {
-					if y, ok := encSalt[ev.MsgID]; ok && saltOrder[y] < saltOrder[x] {
+					if y, ok := encSalt[ev.MsgID]; ok && older(y, x) {
 						return "violation", fmt.Errorf("the acknowledgement of the new_session_created that announced salt %d was itself sent under the older salt %d: the announced salt was not taken over", x, y)
 					}
 					if saltOrder[mustCarry[ev.Conn]] < saltOrder[x] {
